@@ -2,6 +2,7 @@ import L21.Model.Dep
 import L21.Model.RawProto
 import L21.Model.Place
 import L21.Model.RawGds
+import L21.Model.TProto
 /-
 C17 / C14 / C19 — a listing that already has dependencies first is a FIXED POINT of the orderers.
 
@@ -134,3 +135,17 @@ theorem c09_sorted_program_in_listing_order (cells : List (Int × Int)) (insts :
   unfold run; rw [Dep.c17_range_sorted (adj insts) insts.length h]
 
 end L21.Place
+
+namespace L21.TProto
+
+/-- C19 / C17: a gridded-layout library whose registered cells are listed after the cells they instantiate (distinct items,
+    every dependency an earlier item; at least one cell in the table) is exported in exactly that order — the export
+    of a library that was IMPORTED from a message lists the cells as the message did. -/
+theorem c19_listed_order_is_export_order (lib : Lib) (hne : 1 ≤ lib.table.length) (hnd : lib.items.Nodup)
+    (hdeps : ∀ i (hi : i < lib.items.length), ∀ d ∈ deps lib.table lib.items[i], d ∈ lib.items.take i) :
+    exportLib lib = some (exportOrdered lib lib.items) := by
+  unfold exportLib exportLib'
+  obtain ⟨n, hn⟩ : ∃ n, lib.table.length + 1 = n + 2 := ⟨lib.table.length - 1, by omega⟩
+  rw [hn, Dep.c17_sorted_listing_is_kept (deps lib.table) n lib.items hnd hdeps]
+
+end L21.TProto
